@@ -43,10 +43,16 @@ UTF8 = ('utf-8', 'utf8', 'utf_8', 'UTF-8', 'UTF8')
 # ---------------------------------------------------------------------------
 
 class _Getitem:
-    """`d.__getitem__` of an evaluated dict."""
+    """`d.__getitem__` of an evaluated dict, or `seq.__getitem__` of an evaluated list / tuple: the latter is read as
+    the mapping index -> item over range(len(seq)) (the table is only ever applied to the items of a bytes object, i.e.
+    to ints >= 0; an index past the end is a missing key in both readings)."""
 
     def __init__(self, table):
-        self.table = table
+        self.src = table
+
+    @property
+    def table(self) -> dict:
+        return self.src if isinstance(self.src, dict) else dict(enumerate(self.src))
 
 
 class _Return(Exception):
@@ -87,9 +93,14 @@ class _Ev:
         sub = _Ev(self.p, func, self.budget, self.genv if func.module is self.m else None)
         a = func.node.args
         names = [x.arg for x in a.posonlyargs + a.args]
-        if a.vararg or a.kwarg or a.kwonlyargs or len(args) > len(names):
+        if a.vararg or a.kwarg or len(args) > len(names):
             self.bad(func.node, '(signature)')
         env = {}
+        for ko, kd in zip(a.kwonlyargs, a.kw_defaults):
+            # the evaluator hands no keywords to project functions: a keyword-only parameter has its default
+            if kd is None:
+                self.bad(func.node, '(missing keyword-only argument %s)' % ko.arg)
+            env[ko.arg] = sub.expr(kd, {})
         defaults = list(a.defaults)
         for i, n in enumerate(names):
             if i < len(args):
@@ -396,7 +407,7 @@ class _Ev:
         if isinstance(e, ast.Attribute):
             if e.attr == '__getitem__':
                 v = self.expr(e.value, env)
-                if isinstance(v, dict):
+                if isinstance(v, (dict, list, tuple)):
                     return _Getitem(v)
             v = self.p.fold(self.m, e, None, None)
             if v is not UNKNOWN:
@@ -643,6 +654,77 @@ def _module_value(p, func: Func, name: str):
 # the encoder factory under its four configurations
 # ---------------------------------------------------------------------------
 
+def _param_default(fn: Func, name: str) -> Optional[ast.AST]:
+    a = fn.node.args
+    pos = [x.arg for x in a.posonlyargs + a.args]
+    if name in pos:
+        k = pos.index(name) - (len(pos) - len(a.defaults))
+        return a.defaults[k] if k >= 0 else None
+    for ko, kd in zip(a.kwonlyargs, a.kw_defaults):
+        if ko.arg == name:
+            return kd
+    return None
+
+
+_CALLS_OF_CACHE: Dict[int, Optional[list]] = {}
+
+
+def _calls_of(p, fn: Func) -> Optional[List[ast.Call]]:
+    """Every call of the module-level function `fn` in the package; None when `fn` is also referred to other than as the
+    callee of a call (handed on as a value, aliased, wrapped by partial(): its arguments are then not all in sight)."""
+    key = id(fn.node)
+    if key in _CALLS_OF_CACHE:
+        return _CALLS_OF_CACHE[key]
+    short_name = fn.qual.rpartition('.')[2]
+    calls: Optional[List[ast.Call]] = []
+    for m in p.modules.values():
+        callees = {}
+        for n in ast.walk(m.tree):
+            if isinstance(n, ast.Call):
+                callees[id(n.func)] = n
+        for n in ast.walk(m.tree):
+            hit = (isinstance(n, ast.Name) and n.id == short_name) or (isinstance(n, ast.Attribute) and n.attr == short_name)
+            if not hit or not isinstance(n.ctx, ast.Load):
+                continue        # (an import of the name is no use of it: the uses in that module resolve to fn below)
+            if p.resolve_expr(m, n, None) != fn.qual:
+                continue
+            c = callees.get(id(n))
+            if c is None:
+                calls = None
+                break
+            calls.append(c)
+        if calls is None:
+            break
+    _CALLS_OF_CACHE[key] = calls
+    return calls
+
+
+def _unpassed_defaults(p, fn: Func, names: List[str]) -> Dict[str, ast.AST]:
+    """Those of the parameters `names` of `fn` that have a default and that no call of `fn` anywhere in the package
+    passes (by position, by keyword, or possibly through * / **) -> their default expression."""
+    calls = _calls_of(p, fn)
+    if calls is None:
+        return {}
+    a = fn.node.args
+    pos = [x.arg for x in a.posonlyargs + a.args]
+    out: Dict[str, ast.AST] = {}
+    for nm in names:
+        d = _param_default(fn, nm)
+        if d is None:
+            continue
+        passed = False
+        for c in calls:
+            if any(isinstance(x, ast.Starred) for x in c.args) or any(k.arg is None for k in c.keywords):
+                passed = True
+            elif any(k.arg == nm for k in c.keywords):
+                passed = True
+            elif nm in pos and len(c.args) > pos.index(nm):
+                passed = True
+        if not passed:
+            out[nm] = d
+    return out
+
+
 def _cosmetic_params(fac: Func, enc: Func, extras: List[str]) -> Dict[str, ast.AST]:
     """Parameters of the encoder factory beyond (is_value, check_is_escaped) -> their default expression.  Accepted only
     when they have a default and, by def-use, reach nothing but attribute stores on the returned nested function
@@ -703,8 +785,15 @@ class _Factory:
         self.enc = single(list(self.f.nested.values()), 'nested encoder function', self.f.qual)
         ev = _Ev(p, self.f)
         env = {self.p_value: is_value, self.p_check: check}
-        # further parameters: only with a default, and only where they cannot take part in what the encoder decides
-        for name, dflt in _cosmetic_params(self.f, self.enc, params[2:]).items():
+        # further parameters (positional or keyword-only).  One that has a default and that no call of the factory in
+        # the package passes (the factory is private and is only ever called, never handed on as a value) HAS its default
+        # in every encoder the package builds: it is bound to it and takes part in the evaluation like a local constant.
+        extras = params[2:] + [x.arg for x in self.f.node.args.kwonlyargs]
+        fixed = _unpassed_defaults(p, self.f, extras) if extras else {}
+        for name, dflt in fixed.items():
+            env[name] = ev.expr(dflt, {})
+        # the others: only with a default, and only where they cannot take part in what the encoder decides
+        for name, dflt in _cosmetic_params(self.f, self.enc, [x for x in extras if x not in fixed]).items():
             env[name] = ev.expr(dflt, {})
         try:
             ev.block(self.f.node.body, env)
@@ -1101,6 +1190,12 @@ class _EncPaths:
         return NotImplemented
 
     def _atom(self, e, truth, state, leaf):
+        flags = set(getattr(self.cfg, 'flag_refined', None) or ())
+        if flags and any(isinstance(x, ast.Name) for x in ast.walk(e)) and {x.id for x in ast.walk(e) if isinstance(x, ast.Name)} <= flags \
+                and all(isinstance(x, (ast.Name, ast.UnaryOp, ast.BoolOp, ast.Not, ast.And, ast.Or, ast.Load)) for x in ast.walk(e)):
+            # a test of pure control flags on the flag-refined graph: the outcomes the valuation rules out are not edges
+            # of the graph, and the outcome itself says nothing about the input
+            return state
         c = self.const(e)
         if c is not _NC:
             try:
@@ -1176,7 +1271,10 @@ def _r1_verbatim(run, fs):
     p = run.project
     f0 = fs[(False, False)]
     enc = f0.enc
-    cfg = cfg_of(enc, p)
+    # flag-sensitive graph: where the for/else of the already-escaped scan is written with a boolean flag cleared before
+    # each `break`, `if flag:` after the loop is reached with the flag set exactly on the paths that left the loop
+    # through its normal exit (the other outcome's edge is not in the graph)
+    cfg = cfg_of(enc, p, refined=True)
     run.use_cfg(cfg)
     up = single([a.arg for a in enc.node.args.args], 'parameter of the nested encoder', enc.qual)
     rets = [n for n in cfg.live_nodes() if n.kind == 'stmt' and isinstance(n.ast, ast.Return)]
@@ -1584,6 +1682,79 @@ def _catches_key_error(p, f: Func, h: ast.ExceptHandler) -> bool:
     return h.type is None or any(q in ('builtins.KeyError', 'builtins.LookupError', 'builtins.Exception', 'builtins.BaseException') for q in quals)
 
 
+def _membership_guard(p, f: Func, cfg, loop: ast.For, stmt, lk):
+    """The lookup `_HEX_TO_BYTE[K]` in `stmt` runs only on the outcome "K is a key" of a test `K in _HEX_TO_BYTE`
+    (`not in`, negations, conjuncts: decided with `implied` on the dominating branch edge), K the same expression / the
+    same once-bound loop local.  Returns None when there is no such test, else (test node, statements that run in the
+    iteration when K is NOT a key -- from the other outcome of that test up to the loop header, a straight line).
+    The case split is the one try / except KeyError makes: a dict subscription raises KeyError iff the key is absent."""
+    from .common import implied
+    key_dump = ast.dump(lk.slice)
+
+    def is_atom(e):
+        return (isinstance(e, ast.Compare) and len(e.ops) == 1 and isinstance(e.ops[0], (ast.In, ast.NotIn))
+                and p.resolve_expr(f.module, e.comparators[0], f) == URI + '._HEX_TO_BYTE' and ast.dump(e.left) == key_dump)
+
+    from .common import nodes_within
+    inside = nodes_within(cfg, [loop])
+    iters = {i for i in cfg.nodes_for(loop) if cfg.node(i).kind == 'iter'}
+    s_ids = [i for i in cfg.nodes_for(stmt) if not cfg.node(i).copy]
+    if not s_ids:
+        return None
+    found = None
+    for t in cfg.live_nodes():
+        if t.kind != 'test' or t.id not in inside or t.copy:
+            continue
+        atoms = [x for x in walk_self(t.ast) if is_atom(x)]
+        for a in atoms:
+            for (y, l) in cfg.succ[t.id]:
+                if l not in ('T', 'F') or not all(flow.dominated_by_edge(cfg, s, (t.id, y, l)) for s in s_ids):
+                    continue
+                r = implied(t.ast, l == 'T', lambda e, a=a: e is a)
+                if r is None:
+                    continue
+                present = r if isinstance(a.ops[0], ast.In) else (not r)
+                if not present:
+                    continue
+                others = [(y2, l2) for (y2, l2) in cfg.succ[t.id] if l2 in ('T', 'F') and l2 != l]
+                if len(others) != 1:
+                    raise UnknownIdiom('%s: test %s' % (f.qual, short(t.ast, 60)))
+                y2, l2 = others[0]
+                r2 = implied(t.ast, l2 == 'T', lambda e, a=a: e is a)
+                if r2 is None or (r2 if isinstance(a.ops[0], ast.In) else (not r2)):
+                    # the other outcome is not just "the key is missing" (a further conjunct): what the arm does with a
+                    # well-formed escape is outside what is read here
+                    raise UnknownIdiom('%s: the other outcome of %s does not mean the key is missing' % (f.qual, short(t.ast, 60)))
+                found = (t, y, y2)
+    if found is None:
+        return None
+    t, y, y2 = found
+    # the key local is not re-bound between the test and the lookup (it is bound once in the loop: checked by the caller)
+    if isinstance(lk.slice, ast.Name):
+        b_ids = [i for s, _v in _assignments(loop, lk.slice.id) for i in cfg.nodes_for(s)]
+        if b_ids and flow.find_path(cfg, [y], b_ids, avoid_nodes=iters, edge_filter=flow.no_exc) is not None:
+            raise UnknownIdiom('%s: %s is re-bound between the membership test and the lookup' % (f.qual, lk.slice.id))
+    # straight line from the "missing" outcome to the loop header
+    out = []
+    cur = y2
+    seen = set()
+    while cur not in iters:
+        if cur in seen or cur not in inside:
+            raise UnknownIdiom('%s: the arm for a key missing from _HEX_TO_BYTE leaves the loop' % f.qual)
+        seen.add(cur)
+        n = cfg.node(cur)
+        if n.kind == 'stmt':
+            if not isinstance(n.ast, (ast.Continue, ast.Pass)):
+                out.append(n.ast)
+        elif n.kind != 'join':
+            raise UnknownIdiom('%s: the arm for a key missing from _HEX_TO_BYTE branches (%s)' % (f.qual, n.text()))
+        nxt = [b for (b, l) in cfg.succ.get(cur, ()) if l != 'exc']
+        if len(nxt) != 1:
+            raise UnknownIdiom('%s: the arm for a key missing from _HEX_TO_BYTE branches (%s)' % (f.qual, n.text()))
+        cur = nxt[0]
+    return (t, out)
+
+
 def _exactly_once(run, f: Func, cfg, infos):
     """On every path from the entry to a return of the decoded accumulator each token has been emitted exactly once:
     the accumulator is in one of the states
@@ -1782,8 +1953,27 @@ def _check_one_lookup(run, f: Func, klen: int, lk, cfg, parent) -> dict:
         run.ok('a malformed escape ends the optimistic pass in a KeyError arm outside the loop (the tokens are read again from there)',
                f.loc(outer_try), stmt)
     elif try_ is None:
-        run.fail('a malformed escape stays literal (the lookup is not inside try/except KeyError)', f, stmt, where=where,
-                 runtime_witness="decode('%zz') raises KeyError")
+        guard = _membership_guard(p, f, cfg, loop, stmt, lk)
+        if guard is None:
+            run.fail('a malformed escape stays literal (the lookup is not inside try/except KeyError)', f, stmt, where=where,
+                     runtime_witness="decode('%zz') raises KeyError")
+        else:
+            # `if key in _HEX_TO_BYTE: <decoded arm> else: <literal arm>`: the same case split as try / except KeyError
+            # (the subscription is the only thing in the decoded arm that can raise KeyError): same obligations on the arms
+            test, absent = guard
+            if not absent:
+                run.fail("a malformed escape is re-emitted literally as b'%' + the whole token", f, test.ast, where='%s:%s' % (f.file, test.lineno),
+                         witness=['nothing is emitted when %s is not a key of _HEX_TO_BYTE' % short(lk.slice, 40)],
+                         runtime_witness="decode('%zz') != '%zz'")
+            else:
+                ems = [_emission(s) for s in absent]
+                if len(absent) != 1 or ems[0] is None:
+                    raise UnknownIdiom('%s: the arm for a key missing from _HEX_TO_BYTE: %s' % (f.qual, '; '.join(short(s, 60) for s in absent)))
+                op2, acc2, val2 = ems[0]
+                ok = (op2 == op and acc2 == acc and isinstance(val2, ast.BinOp) and isinstance(val2.op, ast.Add)
+                      and isinstance(val2.left, ast.Constant) and val2.left.value == b'%' and isinstance(val2.right, ast.Name) and val2.right.id == tok)
+                run.check(ok, "a malformed escape is re-emitted literally as b'%' + the whole token", f, absent[0], where=f.loc(absent[0]),
+                          runtime_witness="decode('%zz') != '%zz'")
     else:
         arms = [h for h in try_.handlers if _catches_key_error(p, f, h)]
         if not arms:
@@ -1938,8 +2128,9 @@ def r4_decoder_paths(run):
         if loop is not None:
             paths[f.qual] = loop
     dec = p.func(URI + '.decode')
-    if dec.qual not in paths:
-        raise AnchorError('decode(): inline token loop not found')
+    # decode() may hold a token loop of its own (the short-input path) or hand every token list to a helper with the
+    # skeleton (the short path moved out into a third joiner): the returns below decide that each path ends in one
+    inline = dec.qual in paths
     if len(paths) < 2:
         raise AnchorError('token joiners not found (decoder paths: %s)' % sorted(paths))
     run.extra['c10_decoder_paths'] = sorted(paths)
@@ -2060,10 +2251,11 @@ def r4_decoder_paths(run):
         raise UnknownIdiom('decode(): split result is not bound to a local')
     toks = sp.ast.targets[0].id
     _r4_unbounded_tokens(run, dec, cfg, sp, call, toks)
+    n_handed = 0
     for n in cfg.live_nodes():
         if n.kind == 'stmt' and isinstance(n.ast, ast.Return) and n not in shortcut:
             v = n.ast.value
-            if isinstance(v, ast.Call) and isinstance(v.func, ast.Attribute) and v.func.attr == 'decode':
+            if inline and isinstance(v, ast.Call) and isinstance(v.func, ast.Attribute) and v.func.attr == 'decode':
                 continue  # inline path, checked above
             if isinstance(v, ast.Call) and isinstance(v.func, ast.Name) and len(v.args) == 1 and not v.keywords \
                     and _token_window(p, dec, v.args[0], toks) not in (None, 'all'):
@@ -2077,9 +2269,12 @@ def r4_decoder_paths(run):
             cands = _callee_candidates(p, dec, v.func)
             if not cands:
                 raise UnknownIdiom('decode(): callee %s' % short(v.func, 40))
+            n_handed += 1
             for c in cands:
                 run.check(c in paths, 'decode() hands long inputs to a joiner with the same escape skeleton', dec, v,
                           where='%s:%s' % (dec.file, n.lineno), witness=['candidate %s' % c])
+    if not inline and not n_handed:
+        raise AnchorError('decode(): neither an inline token loop nor a call of a token joiner found')
 
 
 R4_ALL_TOKENS = ("every '%' of the input starts a token that goes through the escape table: the tokenisation of the text has no "
@@ -2521,7 +2716,10 @@ def r5_check_escaped(run):
     fs = _factories(run)
     fa = fs[(False, True)]
     enc = fa.enc
-    cfg = cfg_of(enc, p)
+    # flag-sensitive graphs (see _r1_verbatim): a for/else written as `ok = True; for ...: if bad: ok = False; break` +
+    # `if ok:` has, on the refined graph, the `if ok:` body behind the loop's normal exit only and every `break` behind
+    # its other outcome -- the same path facts the for/else form has
+    cfg = cfg_of(enc, p, refined=True)
     run.use_cfg(cfg)
     up = enc.node.args.args[0].arg
 
@@ -2550,7 +2748,7 @@ def r5_check_escaped(run):
             raise UnknownIdiom('%s: more than one place holds the escape scan' % enc.qual)
         scan = scan_tests[0]
         enc = scan[1]
-        cfg = cfg_of(enc, p)
+        cfg = cfg_of(enc, p, refined=True)
         run.use_cfg(cfg)
         up = enc.params()[0]
 
@@ -2578,9 +2776,10 @@ def r5_check_escaped(run):
     # a flag set inside the loop and tested after it is another idiom
     inside = {id(x) for x in ast.walk(loop)}
     set_in_loop = {x.id for x in ast.walk(loop) if isinstance(x, ast.Name) and isinstance(x.ctx, ast.Store)}
+    pure_flags = set(getattr(cfg, 'flag_refined', None) or ())      # decided by the refined graph itself
     for t in cfg.live_nodes():
         if t.kind == 'test' and id(t.ast) not in inside:
-            flags = sorted({x.id for x in ast.walk(t.ast) if isinstance(x, ast.Name)} & set_in_loop)
+            flags = sorted(({x.id for x in ast.walk(t.ast) if isinstance(x, ast.Name)} & set_in_loop) - pure_flags)
             if flags:
                 raise UnknownIdiom('%s: the outcome of the escape check is carried by the local %s (test %s)' % (
                     enc.qual, flags[0], short(t.ast, 60)))
@@ -2588,9 +2787,11 @@ def r5_check_escaped(run):
     run.check(lo == 1 and loop.iter.slice.upper is None and loop.iter.slice.step is None,
               'every token that follows a % is examined', enc, loop.iter, where=enc.loc(loop),
               runtime_witness="encode_check_escaped('%zz%20') is returned unchanged")
-    it_node = single([i for i in cfg.nodes_for(loop) if cfg.node(i).kind == 'iter'], 'loop header', enc.qual)
-    done_edges = flow.edges_out(cfg, it_node, 'done')
-    next_edges = flow.edges_out(cfg, it_node, 'next')
+    it_nodes = [i for i in cfg.nodes_for(loop) if cfg.node(i).kind == 'iter']      # one per flag valuation on a refined graph
+    if not it_nodes:
+        raise UnknownIdiom('%s: loop header' % enc.qual)
+    done_edges = [e for i in it_nodes for e in flow.edges_out(cfg, i, 'done')]
+    next_edges = [e for i in it_nodes for e in flow.edges_out(cfg, i, 'next')]
 
     # accept returns: pass-through returns guarded by check_is_escaped
     accept, encoded = [], []
@@ -2628,8 +2829,9 @@ def r5_check_escaped(run):
         run.check(bad is None, 'a malformed escape makes the encoder fall through to full encoding', outer_enc, tnode.ast,
                   where='%s:%s' % (outer_enc.file, tnode.lineno), witness=flow.describe_path(outer_cfg, bad) if bad else None,
                   runtime_witness="encode_check_escaped('100% x') keeps the bare %")
+    past_done = flow.reachable(cfg, [cfg.entry], avoid_edges=done_edges)
     for n in accept:
-        run.check(any(flow.dominated_by_edge(cfg, n.id, e) for e in done_edges),
+        run.check(n.id not in past_done,
                   'the input is accepted as already escaped only after the loop examined every token without breaking', enc, n.ast,
                   where='%s:%s' % (enc.file, n.lineno), runtime_witness="encode_check_escaped('%20%zz') is returned unchanged")
 
@@ -2742,7 +2944,7 @@ def r5_check_escaped(run):
     for kind, lv, doc in cases:
         assume = assume_for(kind, lv)
         starts = [e[1] for e in next_edges]
-        path = flow.find_path(cfg, starts, [it_node], edge_filter=_feasible(cfg, assume))
+        path = flow.find_path(cfg, starts, it_nodes, edge_filter=_feasible(cfg, assume))
         if path is None:
             path = flow.find_path(cfg, starts, [n.id for n in accept], edge_filter=_feasible(cfg, assume))
         run.check(path is None, 'when %s the loop breaks (the input is not taken as already escaped)' % doc, enc,
